@@ -245,7 +245,13 @@ class NDNApp:
             implicit_sha256 = b''
         node = self._int_tree.setdefault(node_name, InterestTreeNode())
         node.append_interest(future, interest_param, implicit_sha256)
-        self.face.send(raw_interest)
+        try:
+            self.face.send(raw_interest)
+        except BaseException:
+            # The Interest never left: nothing may stay pending for it (nobody will ever await or time out the future)
+            if node.timeout(future) and self._int_tree.get(node_name) is node:
+                del self._int_tree[node_name]
+            raise
         # The lifetime starts when the Interest is sent, not when the returned coroutine is first awaited
         deadline = timestamp() + (100 if interest_param.lifetime is None else interest_param.lifetime)
         return self._wait_for_data(future, deadline, node_name, node, validator, need_raw_packet)
